@@ -245,7 +245,9 @@ func (this *Allocator) canModifyPartition(partition *partition) bool {
 
 func (this *Allocator) addNodeToPartitions(nodeId uint64) {
 	for _, partition := range this.watchedPartitions() {
-		if this.canModifyPartition(partition) && partition.isUnderReplicated() {
+		// A node that is a replica already is not added again: a restart replays
+		// the membership changes, and the list would count the node twice
+		if this.canModifyPartition(partition) && partition.isUnderReplicated() && !partition.isOnNode(nodeId) {
 			partition.proposeAddNode(this.ctx, nodeId)
 		}
 	}
